@@ -4,6 +4,7 @@ import (
 	"bytes"
 	"context"
 	"fmt"
+	"github.com/bartossh/Computantis/src/gossip"
 	"github.com/bartossh/Computantis/src/protobufcompiled"
 	"github.com/bartossh/Computantis/src/serializer"
 	"github.com/bartossh/Computantis/src/transaction"
@@ -313,6 +314,7 @@ func c04Service(w *core.WorkerCtx) {
 			rig.Cache.RemoveAwaitedTransaction(c.Hash, u[2].Addr)
 		}
 	}
+	c04Wire(w, rig, rng, foreign)
 	n := w.Pick(120, 1200)
 	seq := 0
 	mkBase := func(kind int) transaction.Transaction {
@@ -400,6 +402,102 @@ func c04Service(w *core.WorkerCtx) {
 			rig.Cache.RemoveAwaitedTransaction(mt.Hash, mt.ReceiverAddress)
 		}
 	}
+}
+
+// c04Wire: altered vertices on the way they really arrive: as wire messages through the gossip service, whose own
+// mapping stands between the message and the ledger's verification. The engine's mutants, and rewrites that only exist
+// on the wire: the two parts of the amount shifted against each other by k whole units (currency - k, supplementary +
+// k*10^18, with wrap-around), which denote the same value to anything that normalises amounts.
+func c04Wire(w *core.WorkerCtx, rig *svc.Rig, rng *rand.Rand, foreign *ledger.Actor) {
+	r := w.R
+	ctx := context.Background()
+	u := rig.Users
+	offer := func(pv *protobufcompiled.Vertex, class, desc string) {
+		before, err := rig.State(nil)
+		if err != nil {
+			return
+		}
+		rig.Flash.RemoveAddress(string(pv.Hash))
+		w.Mark("c04 wire mutant %s", class)
+		_, cerr := rig.Gossip.GossipVrx(ctx, &protobufcompiled.VrxMsgGossip{Vertex: pv})
+		after, err := rig.State(nil)
+		if err != nil {
+			return
+		}
+		r.Eval(1)
+		r.Count("c04_wire_mutants", 1)
+		r.Nontriv(fmt.Sprintf("wire/%s/refused=%v", class, cerr != nil))
+		if before.Snap.Digest() != after.Snap.Digest() {
+			if ok, why := svc.SameOrOnlyTipsDropped(before, after); !ok {
+				r.Violate("C04", "accepted/wire/"+class, fmt.Sprintf("a vertex altered by [%s] arrived as a wire message at the gossip service (answer: %v): the ledger changed: %s", desc, cerr, why), nil)
+			}
+		}
+		for _, p := range mustParked(rig) {
+			if bytes.Equal(p[:], pv.Hash) && class != "" {
+				// (an altered copy must not wait in the orphan buffer either; the originals used here have known parents)
+				r.Violate("C04", "parked/wire/"+class, fmt.Sprintf("a vertex altered by [%s] was parked for replay", desc), nil)
+			}
+		}
+	}
+	for bi := 0; bi < w.Pick(6, 40); bi++ {
+		s, err := ledger.TakeSnap(rig.Book)
+		if err != nil {
+			return
+		}
+		var tip ledger.H
+		var wgt uint64
+		for h := range s.Leaves {
+			if v, ok := s.Vertex(h); ok && v.Weight >= wgt {
+				tip, wgt = h, v.Weight
+			}
+		}
+		amt := []spice.Melange{{Currency: 3, SupplementaryCurrency: 7}, {SupplementaryCurrency: 5}, {Currency: 1}, {Currency: 2, SupplementaryCurrency: ledger.E18 - 1}}[bi%4]
+		var data []byte
+		if bi%3 == 1 {
+			data = []byte("contract with spice")
+		}
+		bt := ledger.ForgeTrx(u[1+bi%2], u[3-bi%2].Addr, fmt.Sprintf("wire base %d", bi), data, amt, time.Now().Add(-time.Minute))
+		ot := ledger.ForgeTrx(u[1+bi%2], u[0].Addr, fmt.Sprintf("wire other %d", bi), []byte("other"), spice.Melange{SupplementaryCurrency: 77}, time.Now().Add(-time.Minute))
+		base := ledger.ForgeVertex(rig.PeerAct[0], bt, tip, tip, wgt+1, time.Now().Add(-time.Second))
+		other := ledger.ForgeVertex(rig.PeerAct[1], ot, tip, tip, wgt+1, time.Now().Add(-time.Second))
+		// amounts shifted across the seam, on the wire only
+		for _, k := range []uint64{1, 2, 3, 9, 17, 18} {
+			if amt.SupplementaryCurrency > ^uint64(0)-k*ledger.E18 {
+				continue
+			}
+			pv := gossip.VerifVertexToProtoVertex(&base)
+			pv.Transaction.Spice.Currency = amt.Currency - k // wraps below zero
+			pv.Transaction.Spice.SupplementaryCurrency = amt.SupplementaryCurrency + k*ledger.E18
+			offer(pv, fmt.Sprintf("amount-shifted-across-the-seam/k%d", k), fmt.Sprintf("currency - %d, supplementary + %d*10^18", k, k))
+		}
+		muts := c04Mutants(rng, &base, &other, foreign, false)
+		for mi := 0; mi < len(muts) && mi < 400; mi += 1 + rng.Intn(9) {
+			m := &muts[mi]
+			if strings.HasPrefix(m.class, "boundary-shift") || m.class == "receiver-signature-stripped" {
+				continue
+			}
+			offer(gossip.VerifVertexToProtoVertex(&m.v), m.class, m.desc)
+		}
+		// the original is fine
+		pv := gossip.VerifVertexToProtoVertex(&base)
+		rig.Flash.RemoveAddress(string(pv.Hash))
+		if _, err := rig.Gossip.GossipVrx(ctx, &protobufcompiled.VrxMsgGossip{Vertex: pv}); err != nil {
+			r.Note("c04 wire: the unaltered vertex was refused: " + err.Error())
+		}
+	}
+}
+
+// mustParked lists the hashes waiting in the orphan buffer of the rig's ledger.
+func mustParked(rig *svc.Rig) []ledger.H {
+	s, err := ledger.TakeSnap(rig.Book)
+	if err != nil {
+		return nil
+	}
+	var out []ledger.H
+	for _, p := range s.Parked {
+		out = append(out, p.Vertex.Hash)
+	}
+	return out
 }
 
 func c04Worker(w *core.WorkerCtx) {
